@@ -605,3 +605,33 @@ def resolve_ites(term, hyps, timeout_ms=2000):
             return term
         term = z3.simplify(z3.substitute(term, *subs))
     return term
+
+
+def split_ites(term, hyps, max_cases=8):
+    """Case analysis on the if-then-else conditions the hypotheses do not decide.
+
+    Returns [(extra_hypotheses, ite-free term)]; infeasible cases are dropped."""
+    out = []
+
+    def feasible(hs):
+        s = z3.Solver()
+        s.set("timeout", 2000)
+        for h in hs:
+            if is_sym(h):
+                s.add(h)
+        return s.check() != z3.unsat
+
+    def rec(t, extra):
+        t = resolve_ites(t, list(hyps) + extra)
+        ites = [u for u in subterms(t).values() if z3.is_app(u) and u.decl().kind() == z3.Z3_OP_ITE] if is_sym(t) else []
+        if not ites:
+            out.append((extra, t))
+            return
+        if len(out) >= max_cases:
+            raise Unsupported("too many undecided if-then-else cases")
+        c = ites[0].arg(0)
+        for cond in (c, z3.Not(c)):
+            if feasible(list(hyps) + extra + [cond]):
+                rec(t, extra + [cond])
+    rec(term, [])
+    return out
